@@ -219,15 +219,10 @@ func StartEnv(drv forwarder.Driver, o EnvOpts) (*Env, error) {
 	if err := e.openProbe(); err != nil {
 		return nil, err
 	}
-	deadline := time.Now().Add(10 * time.Second)
-	for {
-		if e.heartbeat(50*time.Millisecond) == nil {
-			return e, nil
-		}
-		if time.Now().After(deadline) {
-			return nil, fmt.Errorf("server did not come up: %w", ErrWatchdog)
-		}
+	if err := e.waitUp(); err != nil {
+		return nil, err
 	}
+	return e, nil
 }
 
 // AttachEnv wraps a server started elsewhere (app.VerifRun).
@@ -237,13 +232,24 @@ func AttachEnv(srv *pfcp.PfcpServer, cfg *factory.Config) (*Env, error) {
 	if err := e.openProbe(); err != nil {
 		return nil, err
 	}
+	if err := e.waitUp(); err != nil {
+		return nil, err
+	}
+	return e, nil
+}
+
+func (e *Env) waitUp() error {
 	deadline := time.Now().Add(10 * time.Second)
+	to := 500 * time.Microsecond
 	for {
-		if e.heartbeat(50*time.Millisecond) == nil {
-			return e, nil
+		if e.heartbeat(to) == nil {
+			return nil
+		}
+		if to < 50*time.Millisecond {
+			to *= 2
 		}
 		if time.Now().After(deadline) {
-			return nil, fmt.Errorf("server did not come up: %w", ErrWatchdog)
+			return fmt.Errorf("server did not come up: %w", ErrWatchdog)
 		}
 	}
 }
@@ -347,197 +353,3 @@ func (e *Env) Stop() error {
 	}
 }
 
-// ---- simulated SMF ----
-
-type Datagram struct {
-	T    int64
-	From *net.UDPAddr
-	Sock int // index of the receiving socket within the SMF
-	B    []byte
-	M    *PMsg
-}
-
-// ReportAction tells the SMF reader how to answer a Session Report Request.
-type ReportAction struct {
-	Ignore bool
-	SEID   uint64 // header SEID of the response
-	Twice  bool
-	Via    *SMF // answer from another node's socket
-}
-
-type SMF struct {
-	Idx   int
-	IP    net.IP
-	Socks []*net.UDPConn // [0] is IP:8805
-	upf   *net.UDPAddr
-	seq   uint32
-
-	mu      sync.Mutex
-	rsp     chan *Datagram
-	Reports []*Datagram // every Session Report Request received (incl. retransmissions)
-	All     []*Datagram
-	// OnReport decides the answer to a Session Report Request. nil = ignore.
-	OnReport func(d *Datagram) ReportAction
-	wg       sync.WaitGroup
-	closed   int32
-}
-
-// NewSMF binds 127.B.1.idx:8805 (+ extra sockets on ephemeral ports).
-func NewSMF(idx int, upf *net.UDPAddr, extraSocks int) (*SMF, error) {
-	s := &SMF{Idx: idx, IP: IP(1, idx), upf: upf, rsp: make(chan *Datagram, 8192), seq: uint32(idx) << 16}
-	for i := 0; i <= extraSocks; i++ {
-		port := 8805
-		if i > 0 {
-			port = 0
-		}
-		c, err := net.ListenUDP("udp4", &net.UDPAddr{IP: s.IP, Port: port})
-		if err != nil {
-			s.Close()
-			return nil, err
-		}
-		c.SetReadBuffer(8 << 20)
-		s.Socks = append(s.Socks, c)
-		s.wg.Add(1)
-		go s.reader(i, c)
-	}
-	return s, nil
-}
-
-func (s *SMF) reader(idx int, c *net.UDPConn) {
-	defer s.wg.Done()
-	buf := make([]byte, 65536)
-	for {
-		n, from, err := c.ReadFromUDP(buf)
-		if err != nil {
-			return
-		}
-		d := &Datagram{T: Tick(), From: from, Sock: idx, B: append([]byte{}, buf[:n]...)}
-		d.M, _ = ParseMsg(d.B)
-		s.mu.Lock()
-		s.All = append(s.All, d)
-		isRep := d.M != nil && d.M.Type == MRepReq
-		if isRep {
-			s.Reports = append(s.Reports, d)
-		}
-		on := s.OnReport
-		s.mu.Unlock()
-		if isRep {
-			if on != nil {
-				a := on(d)
-				if !a.Ignore {
-					seid := a.SEID
-					b := BuildMsg(MRepRsp, &seid, d.M.Seq, Cause(CauseAccepted))
-					out := c
-					if a.Via != nil {
-						out = a.Via.Socks[0]
-					}
-					out.WriteToUDP(b, s.upf)
-					if a.Twice {
-						out.WriteToUDP(b, s.upf)
-					}
-				}
-			}
-			continue
-		}
-		select {
-		case s.rsp <- d:
-		default:
-		}
-	}
-}
-
-func (s *SMF) NextSeq() uint32 {
-	s.seq++
-	return s.seq & 0xffffff
-}
-
-func (s *SMF) SendFrom(sock int, b []byte) {
-	s.Socks[sock].WriteToUDP(b, s.upf)
-}
-
-// Drain discards pending responses.
-func (s *SMF) Drain() {
-	for {
-		select {
-		case <-s.rsp:
-		default:
-			return
-		}
-	}
-}
-
-// WaitRsp waits for a response datagram with the given sequence number.
-// Other datagrams arriving meanwhile are returned in extra.
-func (s *SMF) WaitRsp(seq uint32, timeout time.Duration) (got *Datagram, extra []*Datagram) {
-	t := time.NewTimer(timeout)
-	defer t.Stop()
-	for {
-		select {
-		case d := <-s.rsp:
-			if d.M != nil && d.M.Seq == seq {
-				return d, extra
-			}
-			extra = append(extra, d)
-		case <-t.C:
-			return nil, extra
-		}
-	}
-}
-
-// Pending returns whatever has arrived and not been consumed.
-func (s *SMF) Pending() []*Datagram {
-	var out []*Datagram
-	for {
-		select {
-		case d := <-s.rsp:
-			out = append(out, d)
-		default:
-			return out
-		}
-	}
-}
-
-func (s *SMF) ReportsSnapshot() []*Datagram {
-	s.mu.Lock()
-	defer s.mu.Unlock()
-	return append([]*Datagram{}, s.Reports...)
-}
-
-func (s *SMF) SetOnReport(f func(d *Datagram) ReportAction) {
-	s.mu.Lock()
-	s.OnReport = f
-	s.mu.Unlock()
-}
-
-// Drops reads the per-socket drop counter of the SMF's sockets from /proc/net/udp.
-func (s *SMF) Drops() int {
-	data, err := os.ReadFile("/proc/net/udp")
-	if err != nil {
-		return 0
-	}
-	total := 0
-	for _, c := range s.Socks {
-		la := c.LocalAddr().(*net.UDPAddr)
-		ip := la.IP.To4()
-		key := fmt.Sprintf("%02X%02X%02X%02X:%04X", ip[3], ip[2], ip[1], ip[0], la.Port)
-		for _, line := range strings.Split(string(data), "\n") {
-			f := strings.Fields(line)
-			if len(f) >= 13 && f[1] == key {
-				var d int
-				fmt.Sscanf(f[len(f)-1], "%d", &d)
-				total += d
-			}
-		}
-	}
-	return total
-}
-
-func (s *SMF) Close() {
-	if !atomic.CompareAndSwapInt32(&s.closed, 0, 1) {
-		return
-	}
-	for _, c := range s.Socks {
-		c.Close()
-	}
-	s.wg.Wait()
-}
